@@ -28,6 +28,7 @@ class Op:
         self.outcome: Optional[tuple] = None
         self.wall_lo = self.wall_hi = 0.0
         self.walls: List[float] = []
+        self.trace: List[tuple] = []        # ("w", frame bytes) / ("r", bytes the application read), in order
         self.connected_before = None
         self.connected_after = None
         self.sock_closed_after = None
@@ -82,12 +83,14 @@ class Client:
         if self.cur is not None:
             self._wall()
             self.cur.units.append(unit.data)
+            self.cur.trace.append(("w", unit.data))
             self.cur.unit_walls.append(self.sim.wall())
             self.cur.conn_cid = conn.cid
 
     def on_app_read(self, conn, data):
         if self.cur is not None:
             self.cur.app_reads.append(data)
+            self.cur.trace.append(("r", data))
 
     def on_exchange(self, conn, ex):
         if self.cur is not None:
@@ -150,12 +153,21 @@ async def call_op(cl: Client, kind: str, a: Dict[str, Any]):
     from aioswitcher.device import DeviceState, DeviceType, ThermostatFanLevel, ThermostatMode, ThermostatSwing
     api = cl.api
     if kind == "login":
+        # the bare login is a private helper of the library (the repository's own tests call it): exercise it when
+        # it exists with the shape we know, otherwise skip - never judge a refactored private helper
+        import inspect
         fn = getattr(api, "_login", None)
-        if fn is None:
-            return "unavailable"
         dtype = a.get("device_type")
-        r = await (fn(DeviceType[dtype]) if dtype else fn())
-        return r[1] if isinstance(r, tuple) else r
+        args = (DeviceType[dtype],) if dtype else ()
+        try:
+            inspect.signature(fn).bind(*args)
+        except (TypeError, ValueError):
+            return "unavailable"
+        r = await fn(*args)
+        resp = r[1] if isinstance(r, tuple) and len(r) == 2 else r
+        if not hasattr(resp, "session_id") or not hasattr(resp, "unparsed_response"):
+            return "unavailable"
+        return resp
     if kind == "get_state":
         return await api.get_state()
     if kind == "control_device":
